@@ -1,4 +1,6 @@
-import CprocVerif.Lemmas.EvalTree
+import CprocVerif.Lemmas.EvalLit
+import CprocVerif.Gen.IntLimits
+import CprocVerif.Gen.BasicTypes
 
 /-!
 # C04 — constant expressions fold to the value run-time evaluation would give
@@ -218,11 +220,6 @@ theorem spec_div_zero_undefined (t : IntTy) (a : Int) :
 
 /-! ## 10. address constants -/
 
-theorem castInt_8 (sg : Bool) {x : Nat} (hx : x < W) : castInt 8 sg x = x := by
-  have := castInt_nat (t := ⟨64, sg⟩) (by simp [IntTy.Arith]) x
-  rw [W_eq] at hx
-  cases sg <;> simp [wrap, repr64] at this <;> rw [this] <;> omega
-
 /-- `(P + C1) ± C2 → P + (C1 ± C2)` with 64-bit offsets (all that `mkbinaryexpr` produces): the
 new offset is `C1 ± C2` modulo `2^64`, i.e. the address arithmetic of the target. -/
 theorem addr_fold (P : Expr) (ty : Ty) (s1 s2 : Bool) {c1 c2 : Nat} (h1 : c1 < W) (h2 : c2 < W) :
@@ -314,6 +311,106 @@ theorem fold_float_to_int_model (fsz : Nat) {t : IntTy} (ht : t.Arith) (l : Nat)
   simp only [castConst, if_neg h1, if_neg h2, Ty.isFlt, Ty.isInt, and_self, if_true, Ty.isSigned,
     Eval.cast, cast_ofI ht]
   cases t.signed <;> simp
+
+end
+
+/-! ## 12. integer literals (6.4.4.1) -/
+
+/-- `inttype`: for every value and every spelling of every suffix (any letter case), the type
+chosen is the first type of the list of 6.4.4.1p5 that can represent the value (`none` = no type,
+diagnosed).  The search loop of `inttype` steps through its table by 1 or 2; the spec filters
+the table by the suffix and takes the first fit. -/
+theorem literal_type_correct (v : Nat) (decimal : Bool) (sfx : List Char) (s : Suffix)
+    (hs : sfxOf (String.ofList (sfx.map toLower)) = some s) :
+    inttype v decimal sfx = litType s decimal v :=
+  inttype_correct v decimal sfx s hs
+
+/-- Decimal, hexadecimal, binary and octal constants of any length: the parsed value is the
+numeric value of the digit string and the type is the first fitting one; a value `≥ 2^64` (or
+without a fitting type) is rejected (`litSpec`; 23c06f0 for the overflow). -/
+theorem literal_value_correct (cs sfx : List Char) (hsx : SuffixChars sfx) {s : Suffix}
+    (hsf : sfxOf (String.ofList (sfx.map toLower)) = some s) :
+    (cs ≠ [] → AllDigits 10 cs → cs.head? ≠ some '0' →
+      parseNumber (cs ++ sfx) = litSpec (numVal 10 (digitsOf cs)) true s) ∧
+    (∀ x, x = 'x' ∨ x = 'X' → cs ≠ [] → AllDigits 16 cs →
+      parseNumber ('0' :: x :: (cs ++ sfx)) = litSpec (numVal 16 (digitsOf cs)) false s) ∧
+    (∀ x, x = 'b' ∨ x = 'B' → cs ≠ [] → AllDigits 2 cs →
+      parseNumber ('0' :: x :: (cs ++ sfx)) = litSpec (numVal 2 (digitsOf cs)) false s) ∧
+    (AllDigits 8 cs → parseNumber ('0' :: (cs ++ sfx)) = litSpec (numVal 8 (digitsOf cs)) false s) :=
+  ⟨fun hne h h0 => literal_decimal cs sfx hne h h0 hsx hsf,
+   fun x hx hne h => literal_hex x hx cs sfx hne h hsx hsf,
+   fun x hx hne h => literal_binary x hx cs sfx hne h hsx hsf,
+   fun h => literal_octal cs sfx h hsx hsf⟩
+
+/-- a constant whose value does not fit 64 bits has no type: rejected, whatever the suffix. -/
+theorem literal_overflow_rejected (v : Nat) (hv : W ≤ v) (decimal : Bool) (s : Suffix) :
+    litSpec v decimal s = .error := by
+  simp [litSpec, hv]
+
+/-! ## 13. tie to the tables generated from `/repo` (re-checked on every run) -/
+
+def litVar : LitTy → String
+  | .int => "typeint" | .uint => "typeuint" | .long => "typelong" | .ulong => "typeulong"
+  | .llong => "typellong" | .ullong => "typeullong"
+
+/-- the model's copy of `limits[]` (expr.c: `inttype`) is the table in the source. -/
+theorem limits_tied :
+    Eval.limits.map (fun r => (litVar r.1, r.2.1, r.2.2)) = Gen.IntLimits.limits := by decide
+
+/-- sizes and signedness of the basic integer types (type.c) are those of `LitTy`/`IntTy`. -/
+theorem basic_types_tied :
+    (Gen.BasicTypes.table.filter (fun r => r.props.contains "PROPINT")).map
+      (fun r => (r.var, r.size, r.issigned)) =
+    [("typebool", 1, false), ("typechar", 1, true), ("typeschar", 1, true), ("typeuchar", 1, false),
+     ("typeshort", 2, true), ("typeushort", 2, false), ("typeint", 4, true), ("typeuint", 4, false),
+     ("typelong", 8, true), ("typeulong", 8, false), ("typellong", 8, true), ("typeullong", 8, false)] ∧
+    (∀ t : LitTy, (litVar t, litSize t, litSigned t) ∈
+      Gen.BasicTypes.table.map (fun r => (r.var, r.size, r.issigned))) := by
+  refine ⟨by decide, fun t => ?_⟩
+  cases t <;> decide
+
+/-! ## Non-vacuity: concrete inputs meeting the hypotheses -/
+
+section
+variable {F : Type} (ops : FloatOps F)
+
+-- binary_correct / fold_correct: INT_MIN / -1 is undefined, -7 / 2 = -3, 0xFFFFFFFFu + 1u wraps
+example : CInt.bin .div IntTy.int (-2147483648) (-1) = none := by decide
+example : CInt.bin .div IntTy.int (-7) 2 = some (-3) ∧ InRange IntTy.int (-7) ∧ InRange IntTy.int 2 := by decide
+example : CInt.bin .add IntTy.uint 4294967295 1 = some 0 := by decide
+example : CInt.bin .shl IntTy.int 1 31 = none ∧ CInt.bin .shl IntTy.uint 1 31 = some 2147483648 := by decide
+example : CInt.bin .shr IntTy.int (-8) 1 = some (-4) := by decide
+example : foldBin ops .div (tyOf IntTy.int) (repr64 IntTy.int (-7)) (repr64 IntTy.int 2) (tyOf IntTy.int)
+    = .folded (repr64 IntTy.int (-3)) :=
+  fold_correct ops (by decide) (by decide) .div (by decide) (fun _ => rfl) (by decide) (by decide) (by decide)
+-- unary_correct
+example : CInt.un .neg IntTy.int (-2147483648) = none ∧ CInt.un .bnot IntTy.uint 0 = some 4294967295 := by decide
+-- cast_correct: (_Bool)256 = 1, (signed char)200 = -56
+example : wrap IntTy.bool 256 = 1 ∧ wrap IntTy.schar 200 = -56 ∧ IntTy.bool.Valid ∧ InRange IntTy.int 256 := by decide
+-- eval_correct / eval_canon: (int)5 + 3 * -(4) with all leaves canonical
+def exTree : Expr :=
+  .binary .add (.int 4 true) (.const (.int 4 true) 5)
+    (.binary .mul (.int 4 true) (.const (.int 4 true) 3) (.unary .neg (.int 4 true) (.const (.int 4 true) 4)))
+example : IntFrag exTree := by simp [exTree, IntFrag, Ty.isInt]
+example : evalC exTree = some (-7) := by decide
+example : Canon exTree := by
+  refine ⟨by simp [Ty.Wf], ⟨by simp [Ty.Wf], 5, by decide, by decide⟩, Or.inl ⟨by simp [Ty.Wf],
+    ⟨by simp [Ty.Wf], 3, by decide, by decide⟩, Or.inl ⟨by simp [Ty.Wf], by simp [Ty.Wf], 4, by decide, by decide⟩⟩⟩
+-- `0 && 1/0` is defined (0): the right operand is not evaluated
+example : evalC (.binary .land (.int 4 true) (.const (.int 4 true) 0)
+    (.binary .div (.int 4 true) (.const (.int 4 true) 1) (.const (.int 4 true) 0))) = some 0 := by decide
+-- intconstexpr_sign_rule
+example : InRange IntTy.ulong (2 ^ 64 - 1) ∧ IntTy.ulong.Valid := by decide
+-- literal_value_correct: "0x7fffffffu", "017", "0b101ull", "2147483648"
+example : AllDigits 16 "7fffffff".toList ∧ SuffixChars "u".toList ∧
+    sfxOf (String.ofList ("u".toList.map toLower)) = some ⟨true, 0⟩ := by
+  refine ⟨?_, ?_, by decide⟩
+  · unfold AllDigits; decide
+  · unfold SuffixChars; decide
+example : parseNumber "0x80000000".toList = .int 2147483648 .uint ∧
+    parseNumber "2147483648".toList = .int 2147483648 .long ∧
+    parseNumber "0b101ull".toList = .int 5 .ullong ∧ parseNumber "017".toList = .int 15 .int ∧
+    parseNumber "18446744073709551616u".toList = .error ∧ parseNumber "08".toList = .error := by decide
 
 end
 
